@@ -116,10 +116,21 @@ U("replace_item_in_object", "cjson", "harness/replace_item_in_object.c", enforce
   note="aliasing precondition: the key argument may be the replacement's own key")
 
 # ---------------------------------------------------------------- cJSON.c : containers (skeleton units, children <= K)
-U("parse_array", "cjson", "harness/parse_array.c", enforce="parse_array", shape="S", bound="children <= 3", loops=True, expect_loop_obligations=1,
+U("parse_array", "cjson", "harness/parse_array.c", tiers=(), enforce="parse_array", shape="S", bound="children <= 3", loops=True, expect_loop_obligations=1,
   props=["C01", "C02", "C03", "C07", "C08", "C14", "C20"], covers=5, defs=["-DVF_CONTAINER_VIEWS"], unwindset=["parse_array.0:4"], bounded_loops=[r"parse_array.*\.unwind\."],
   replace=["cJSON_New_Item/cJSON_New_Item_cv", "parse_value/parse_value_cv", "cJSON_Delete/cJSON_Delete_chain_cv"], timeout=(900, 3000),
   note="element values arbitrary (recursive call replaced by its contract); only the element loop is cut at K")
-U("parse_object", "cjson", "harness/parse_object.c", enforce="parse_object", shape="S", bound="members <= 2", loops=True, expect_loop_obligations=1,
+U("parse_object", "cjson", "harness/parse_object.c", tiers=(), enforce="parse_object", shape="S", bound="members <= 2", loops=True, expect_loop_obligations=1,
   props=["C01", "C02", "C03", "C07", "C08", "C14", "C20"], covers=5, defs=["-DVF_CONTAINER_VIEWS"], unwindset=["parse_object.0:3"], bounded_loops=[r"parse_object.*\.unwind\."],
   replace=["cJSON_New_Item/cJSON_New_Item_cv", "parse_string/parse_string_cv", "parse_value/parse_value_cv", "cJSON_Delete/cJSON_Delete_chain_cv"], timeout=(900, 3000))
+U("cJSON_Delete", "cjson", "harness/cJSON_Delete.c", tiers=(), enforce="cJSON_Delete", rec=True, shape="S", bound="chain <= 2 nodes, children abstract", props=["C07", "C14", "C20"], covers=2,
+  unwindset=["cJSON_Delete.0:3"], bounded_loops=[r"cJSON_Delete.*\.unwind\."], timeout=(900, 3000),
+  note="recursive call cut by the contract (--enforce-contract-rec, opaque subtree tokens)")
+
+# ---------------------------------------------------------------- cJSON.c : byte-writing loops (bounded units)
+U("parse_string_b", "cjson", "harness/parse_string_b.c", no_contract=True, shape="B", bound="input <= 8 bytes (quick) / 12 (thorough)", funcs=["parse_string", "utf16_literal_to_utf8", "parse_hex4"],
+  props=["C01", "C02", "C03", "C08"], covers=3, unwind=14, tdefs={"quick": ["-DPS_N=8"], "thorough": ["-DPS_N=12"]}, tunwind={"quick": 14, "thorough": 18}, timeout=(900, 3000),
+  note="all byte strings up to the bound, all truncation points; compared with a reference decoder written from RFC 8259")
+U("print_string_ptr_b", "cjson", "harness/print_string_ptr_b.c", no_contract=True, shape="B", bound="string <= 5 bytes (quick) / 7 (thorough)", funcs=["print_string_ptr"],
+  props=["C04", "C05", "C08", "C09"], covers=3, unwind=10, tdefs={"quick": ["-DPSP_N=5"], "thorough": ["-DPSP_N=7"]}, tunwind={"quick": 34, "thorough": 46}, replace=["ensure"], timeout=(900, 3000),
+  note="all byte strings up to the bound; compared with a reference encoder written from RFC 8259")
